@@ -245,6 +245,13 @@ func c20CoqObs(kind string, o c20Obs, byName map[string]int) (string, error) {
 
 var c20Kinds = []string{"KBin", "KXml", "KJson", "KText"}
 
+func c20CoqKind(k string) string {
+	if k == "KBin" {
+		return k
+	}
+	return "(KTok " + k + ")"
+}
+
 // ---------------------------------------------------------------- generators
 
 func c20RandLeaf(r *h.Rand, neg bool) *c20LeafV {
@@ -660,7 +667,7 @@ func driveC20(c *h.Ctx) error {
 				cs[i] = em.intern("call", cs[i])
 				os_[i] = em.intern("obs", os_[i])
 			}
-			row := fmt.Sprintf("(%s, %s, %s)", hc.Kind, h.List(cs), h.List(os_))
+			row := fmt.Sprintf("(%s, %s, %s)", c20CoqKind(hc.Kind), h.List(cs), h.List(os_))
 			em.size += len(row)
 			histRows = append(histRows, row)
 			c.IndexCase("mism_hist", len(histRows)-1, hc)
@@ -688,25 +695,23 @@ func driveC20(c *h.Ctx) error {
 	probes := c20Probes()
 	n := 0
 	for _, kind := range c20Kinds {
-		var rec func(prefix []c20Call, depth int) error
-		rec = func(prefix []c20Call, depth int) error {
-			hc := c20HistCase{Mode: "history", Kind: kind, Calls: append([]c20Call{}, prefix...), Probe: probes[n%len(probes)]}
-			n++
-			if err := addHist(hc, true); err != nil {
-				return err
-			}
-			if depth == 0 {
-				return nil
-			}
-			for _, a := range alpha {
-				if err := rec(append(prefix, a), depth-1); err != nil {
+		// shortest histories first: the first failure of a signature is a smallest one
+		level := [][]c20Call{nil}
+		for depth := 0; depth <= 3; depth++ {
+			var next [][]c20Call
+			for _, prefix := range level {
+				hc := c20HistCase{Mode: "history", Kind: kind, Calls: prefix, Probe: probes[n%len(probes)]}
+				n++
+				if err := addHist(hc, true); err != nil {
 					return err
 				}
+				if depth < 3 {
+					for _, a := range alpha {
+						next = append(next, append(append([]c20Call{}, prefix...), a))
+					}
+				}
 			}
-			return nil
-		}
-		if err := rec(nil, 3); err != nil {
-			return err
+			level = next
 		}
 	}
 	c.Extra("exhaustive_histories", n)
